@@ -4,7 +4,8 @@
 (* per-connection decision cache -> authorizeQuery -> forward the ORIGINAL message or answer an   *)
 (* error.  A query is abstracted to its statement shape and its topic references, each placed     *)
 (* before the 512-byte cut ("near"), across it ("straddle": only a fragment of the name is left   *)
-(* in the truncated text) or after it ("far").                                                    *)
+(* in the truncated text), after it ("far") or far after it ("vfar": beyond 64 KiB, so that any  *)
+(* other fixed truncation length is exercised as well).                                           *)
 EXTENDS Integers, Sequences, FiniteSets, TLC, Json
 CONSTANTS MaxQ, Acls, CacheModes, MaxEntries,
           FixFullText,           \* TRUE: authorisation and cache key use the full text (repaired); FALSE: the truncated text
@@ -15,7 +16,7 @@ AclDef(a) == CASE a = "allow" -> [allow |-> {"ta"}, deny |-> {}]
                [] a = "both"  -> [allow |-> {"ta", "td"}, deny |-> {"td"}]
                [] a = "open"  -> [allow |-> {}, deny |-> {}]
 Singles == {[shape |-> s, t1 |-> t, t2 |-> "none", pos |-> "near"] : s \in {"select", "explain", "describe", "showparts"}, t \in Topics}
-Joins == {[shape |-> s, t1 |-> a, t2 |-> b, pos |-> p] : s \in {"join", "explainjoin"}, a \in Topics, b \in Topics, p \in {"near", "straddle", "far"}}
+Joins == {[shape |-> s, t1 |-> a, t2 |-> b, pos |-> p] : s \in {"join", "explainjoin"}, a \in Topics, b \in Topics, p \in {"near", "straddle", "far", "vfar"}}
 Others == {[shape |-> s, t1 |-> "none", t2 |-> "none", pos |-> "near"] : s \in {"showtopics", "set"}}
 Queries == Singles \cup Joins \cup Others
 
@@ -35,7 +36,7 @@ Vis(q) == IF OnFull \/ q.t2 = "none" \/ q.pos = "near" THEN TopicsOf(q)
           ELSE IF q.pos = "straddle" THEN {q.t1, "frag"} ELSE {q.t1}
 Key(q) == IF FixFullText /\ ~DevCacheKeyTruncated
           THEN [s |-> q.shape, t1 |-> q.t1, t2 |-> q.t2]       \* whitespace-normalised full text
-          ELSE [s |-> q.shape, t1 |-> q.t1, t2 |-> IF q.pos = "near" THEN q.t2 ELSE q.pos]
+          ELSE [s |-> q.shape, t1 |-> q.t1, t2 |-> IF q.pos = "near" THEN q.t2 ELSE IF q.pos = "straddle" THEN "straddle" ELSE "far"]
 Authorize(q) == IF q.shape = "set" THEN TRUE
                 ELSE IF A.allow = {} /\ A.deny = {} THEN TRUE
                 ELSE IF q.shape = "showtopics" THEN AllowShowTopics
